@@ -1,10 +1,12 @@
 ------------------------------ MODULE MC_WarmUp ------------------------------
-EXTENDS WarmUp
+EXTENDS WarmUp, Json
 
-CONSTANTS MaxHalf
+CONSTANTS MaxHalf, GenMode, GenDepth
+
+VARIABLE hist
 
 \* demand per bucket: nothing, below q/c, exactly the current allowance, saturating
-Demands == {0, Lo \div 4, Q, 2 * Q}
+Demands == {0, Lo \div 4, Q}
 
 \* long idle gaps are taken in one go (P, 2P, 5P seconds) to keep the horizon small
 Gap(k) ==
@@ -15,9 +17,14 @@ Gap(k) ==
     /\ coldAt' = (coldAt \/ idle + k >= 2 * P)
     /\ UNCHANGED <<stored, lastFill, synced, ok>>
 
-MCNext == (\E d \in Demands : Step(d)) \/ (\E k \in {P, 2 * P, 5 * P} : Gap(k))
-MCSpec == WarmInit /\ [][MCNext]_wvars
+Log(x) == hist' = (IF GenMode THEN Append(hist, x) ELSE <<>>)
+MCNext == (\E d \in Demands : Step(d) /\ Log([d |-> d])) \/ (\E k \in {P, 2 * P, 5 * P} : Gap(k) /\ Log([gap |-> k]))
+MCSpec == WarmInit /\ hist = <<[q |-> Q, c |-> C, p |-> P]>> /\ [][MCNext]_<<wvars, hist>>
+GenBound == Len(hist) <= GenDepth
+PrintBehaviour == (GenMode /\ Len(hist) = GenDepth) => PrintT(<<"REPLAY", ToJson(hist)>>)
 Bound == half <= MaxHalf
+GoalRun1 == ~(run >= 1)
+GoalAdm == ~(lastAdm >= 10)
 GoalWarm == ~(run >= 2 * P + 2 /\ lastAdm >= Q - Tau)
 GoalColdAgain == ~(coldAt /\ half > 4 * P)
 =============================================================================
